@@ -201,11 +201,13 @@ func (w *nsWorld) Exec(a NSAction) []NSLine {
 		c := w.client(a.C)
 		var lines []NSLine
 		var msg *clienttypes.MsgUpgradeClient
+		var cs *ibctm.ClientState
 		if c.ty == "tm" && a.C >= 1 && a.C <= len(w.clients) {
-			cs, ok := w.a.GetClientState(c.id).(*ibctm.ClientState)
-			if !ok {
-				w.t.Fatal("not a tendermint client state")
+			if got, found := k.ClientKeeper.GetClientState(w.a.GetContext(), c.id); found {
+				cs, _ = got.(*ibctm.ClientState)
 			}
+		}
+		if cs != nil {
 			rev := clienttypes.ParseChainID(cs.ChainId)
 			newChainID, err := clienttypes.SetRevisionNumber(cs.ChainId, rev+1)
 			if err != nil {
